@@ -237,3 +237,35 @@ def _clauses(bench, cons, ks, m, impl_c, out, dans):
     if impl_c != exp:
         return "runs are not collapsed to one closed interval or exact version each: expected %s" % B.cons_line(exp)
     return None
+
+
+def search(ctx):
+    """a tie is broken and the sweep found nothing.  Where the real operators rank two versions of a pool differently from
+    the scheme's Lean model (`layerb.MISMATCHES`: the model's order is the scheme's reference order), the range built from
+    ONE of the two is asked about the other: "a range built from a list of versions contains exactly the versions equal to
+    a listed one"."""
+    for mm in B.MISMATCHES[:8]:
+        name = mm["scheme"]
+        rcls = S.rclass(name)
+        if rcls is None:
+            continue
+        vcls = S.vclass(name)
+        for x, y in ((mm["a"], mm["b"]), (mm["b"], mm["a"])):
+            ans = common.run_model(["vcmp %s %s %s" % (name, common.hx(x), common.hx(y))])[0].split(" ")[0]
+            if ans not in ("lt", "eq", "gt"):
+                continue
+            want = ans == "eq"
+            try:
+                got = vcls(y) in rcls.from_versions([x])
+            except Exception as e:  # noqa: BLE001
+                got = "raises " + type(e).__name__
+            ctx.count("search-order-mismatch:" + name, key=(x, y), nontrivial=True)
+            if got != want:
+                ctx.disagree("search-order-mismatch:" + name, "from_versions([%r]) probed with %r" % (x, y), str(got), str(want), True,
+                             {"scheme": name, "versions": [x], "probe": y, "reference_order_of_the_two": ans,
+                              "clause": "the range built from one listed version %s a version that is %s to it in the scheme's reference order"
+                                        % ("contains" if got is True else "does not contain", "not equal" if not want else "equal"),
+                              "python": "from univers.version_range import %s as R; from univers.versions import %s as V; print(V(%r) in R.from_versions([%r]))"
+                                        % (rcls.__name__, vcls.__name__, y, x)}, spec=str(want))
+                break
+
